@@ -11,6 +11,8 @@
     parses; the counter that is added to the subsection's first object number is incremented on every path from the entry
     parser back to the loop header (the failed-parse arm included). A counter advanced only on success files every entry after
     a damaged line one object number too low.
+ R6 reconstructed entries keep the scanned generation: the cross-reference entries built from the scanned `N G obj` headers take their
+    generation from the header, not from a constant (an object `5 2 obj` rebuilt as generation 0 makes `5 2 R` unresolvable).
 Not decided: equality of every recovered object with the intact file.
 """
 from .. import lib as L
@@ -23,6 +25,7 @@ X = "parser::xref::XRefTable::"
 
 def run(ctx):
     r5_entry_slots(ctx)
+    r6_generation_from_header(ctx)
     facts = ctx.facts
     po = ctx.fn(X + "parse_with_options", "anchor")
     g = CF.cfg(po)
@@ -145,3 +148,29 @@ def r5_entry_slots(ctx):
                           "unparseable entry does not consume its slot, so every later entry of the subsection is filed one object "
                           "number too low and references resolve to the wrong objects" % sorted(set(fn.line(x) for x in w))[:8],
                           fn.where(w[0]), {"path_lines": [fn.line(x) for x in w][:12]})
+
+
+def r6_generation_from_header(ctx):
+    from .. import flow as FL
+    facts = ctx.facts
+    fn = ctx.fn("parser::xref::XRefTable::add_headers_latest_wins", "R6")
+    adt = facts.adts.get("parser::xref::XRefEntry")
+    names = [f[0] for f in adt["variants"][0]["fields"]] if adt else ["offset", "generation", "in_use"]
+    gi = names.index("generation") if "generation" in names else 1
+    aggs = []
+    for f in L.group(facts, fn.id):
+        for b, blk in enumerate(f.blocks):
+            for st in blk[0]:
+                rv = st[2]
+                if rv[0] == "agg" and rv[1][0] == "adt" and rv[1][1] == "parser::xref::XRefEntry":
+                    aggs.append((f, b, rv[2][gi]))
+    if not ctx.floor("R6", "XRefEntry built in add_headers_latest_wins", len(aggs), 1):
+        return
+    for i, (f, b, op) in enumerate(aggs):
+        key = "add_headers_latest_wins:entry#%d:generation-from-header" % (i + 1)
+        if op[0] == "k":
+            ctx.violation("R6", key, "a reconstructed cross-reference entry is given the constant generation %r instead of the generation "
+                          "scanned from the object header: an object with a non-zero generation (`5 2 obj`, referenced as `5 2 R`) "
+                          "cannot be resolved after reconstruction although the intact file resolves it" % (op[2],), f.where(b))
+        else:
+            ctx.ok("R6", key, "generation taken from a run-time value (the scanned header)", f.where(b))
